@@ -93,3 +93,13 @@ Print Assumptions C05_terminates.
 From FG.gen Require Import Sites_gen.
 Theorem C05_sites_recognised : forallb (fun b => b) sites_C05 = true.
 Proof. vm_compute. reflexivity. Qed.
+
+(* tie to the source: the constants the model copies from the Go source equal what the running engine reports
+   (gen/Tables_gen.v is regenerated on every run by `verifh dump-tables`) *)
+From FG.gen Require Import Tables_gen.
+From Coq Require Import ZArith NArith. (* consts *)
+From FG Require ConstTie.
+From FG Require PvBuffers.
+Theorem C05_model_constants_dumped :
+  Z.of_nat PvBuffers.max_depth = c_max_depth.
+Proof. exact ConstTie.pvbuffers_constants_dumped. Qed.
